@@ -642,9 +642,9 @@ def check_C03(tier):
     np = lib()["__numpy__"]
     fams = [Family("fz", 2, laws=["MaskRule"]), Family("ar", 2, laws=["MaskRule"]), Family("cvc", 1, laws=["MaskRule"]),
             Family("ff", 1, laws=["MaskRule"]), Family("cva", 1, L=3, laws=["MaskRule"]), Family("ar", 1, laws=["MaskRule"]),
-            Family("fz", 1, laws=["MaskRule"])]
+            Family("fz", 1, laws=["MaskRule"]), Family("fz", 3, laws=["MaskRule"]), Family("ar", 3, laws=["MaskRule"], sample=2)]
     if tier == "thorough":
-        fams += [Family("fz", 3, laws=["MaskRule"]), Family("ar", 3, laws=["MaskRule"]), Family("cva", 1, L=4, laws=["MaskRule"]),
+        fams += [Family("fz", 4, laws=["MaskRule"]), Family("ar", 3, laws=["MaskRule"]), Family("cva", 1, L=4, laws=["MaskRule"]),
                  Family("fz", 2, wide=True, laws=["MaskRule"])]
     gen_families(fams)
     add_tlc_runs(chk, fams)
@@ -763,6 +763,18 @@ def stretch_C04(chk, rounds):
                 ("CvtToFuzzyMeanToMid", [["IgnoreZeros", rng.choice(["True", "False"])], ["FuzzyValues", nums(5, scale)]], [arr(size, scale)]),
                 ("CvtToBinary", [["Threshold", nums(1, scale)[0]], ["Direction", rng.choice(["LowToHigh", "HighToLow"])]], [arr(size, scale)]),
                 ("FuzzyNot", [], [arr(size, 1, True)])]
+        # curves whose values stay inside [-1, 1] and reach the bounds, on raw values with awkward magnitudes: only rounding can overshoot
+        base = rng.choice([0, 10, 1e3, 1.6e9])
+        step = rng.choice([0.1, 1, 15, 35, 1e-3])
+        k = rng.randint(2, 4)
+        raws = [base + step * (i + rng.random() * 0.5) for i in range(k)]
+        fv = [1.0, -1.0][::rng.choice([1, -1])] if k == 2 else ([1.0] + [rng.uniform(-1, 1) for _ in range(k - 2)] + [-1.0])[::rng.choice([1, -1])]
+        cells = raws + [base - step, raws[-1] + step] + [rng.uniform(raws[0], raws[-1]) for _ in range(3)]
+        as_num = lambda x: [int(round(x * 1e6)), 1000000] if abs(x) < 2000 else [int(round(x * 1000)), 1000]
+        jobs.append(("CvtToFuzzyCurve", [["RawValues", [as_num(x) for x in raws]], ["FuzzyValues", [as_num(x) for x in fv]]],
+                     [np.ma.array([num(as_num(c)) for c in cells])]))
+        jobs.append(("CvtToFuzzy", [["TrueThreshold", as_num(raws[-1])], ["FalseThreshold", as_num(raws[0])]], [np.ma.array([num(as_num(c)) for c in cells])]))
+        jobs.append(("CvtToFuzzyCurveZScore", [["ZScoreValues", [[-1, 1], [1, 3], [2, 1]]], ["FuzzyValues", [[-1, 1], [1, 7], [1, 1]]]], [np.ma.array(cells)]))
         if n >= 2:
             jobs.append(("FuzzyXOr", [], [arr(size, 1, True) for _ in range(n)]))
         jobs.append(("FuzzySelectedUnion", [["TruestOrFalsest", rng.choice(["Truest", "Falsest"])], ["NumberToConsider", [rng.randint(1, n), 1]]],
